@@ -214,7 +214,7 @@ pub fn main(args: &[String]) {
     let _workdir = &args[0]; let tier = &args[1]; let seed: u64 = args[2].parse().unwrap(); let out = &args[3];
     let thorough = tier == "thorough";
     let mut rng = Rng::new(seed ^ 0xc02);
-    let n = if thorough { 60000 } else { 3000 };
+    let n = if thorough { 60000 } else { 6000 };
     let sents: Vec<Sent> = (0..n).map(|_| generate(&mut rng, if thorough { 5 } else { 3 })).collect();
     let sents = std::sync::Arc::new(sents);
     let s2 = sents.clone();
